@@ -44,6 +44,10 @@ ASSUMPTIONS = [
     "boundaries; C calls are atomic (GIL)",
     "histories, schedules and fault points are sampled, not enumerated",
 ]
+ABORT_TARGETS = ["from_parsed_data", "from_chart_line", "from_chart_lines", "build_", "data_to_",
+                 "timestamp_at_tick", "_index_of_proximal_event", "__post_init__", "complex_sustain",
+                 "_compute_", "__init__", "_refined_", "note_duration", "seconds_from", "from_file",
+                 "_parse_data", "parse_data_from", "is_chord", "is_5_note", "<genexpr>", "<lambda>"]
 SUB_BATCHES = ["none", "none", "io", "eio", "abort", "abort", "cache_clear", "long"]
 
 
@@ -144,6 +148,10 @@ def make_plan(seed: int, tier: str, index: int) -> dict[str, Any]:
                                                f.randint(1, 2500), f.randint(1, 2500),
                                                f.randint(1, 6000)])),
                            "exc": f.choice(["SimAbort", "MemoryError", "MemoryError"])}
+            if f.random() < 0.5:
+                # targeted: k-th pre-emption point inside frames of a given family of functions
+                op["abort"]["in"] = f.choice(ABORT_TARGETS)
+                op["abort"]["at"] = f.choice([1, 1, 2, 3, 5, 8, 13, 30])
     elif sub == "cache_clear":
         knobs["cache_clear"] = sorted({(ci, k) for ci, k, _ in f.sample(all_ops, min(len(all_ops), f.randint(1, 4)))})
         knobs["cache_clear"] = [list(x) for x in knobs["cache_clear"]]
@@ -168,7 +176,7 @@ def make_plan(seed: int, tier: str, index: int) -> dict[str, Any]:
         if "est_steps" in schedule:
             schedule["est_steps"] *= 4
         for _ci, _k, op in all_ops:
-            if op.get("abort"):
+            if op.get("abort") and not op["abort"].get("in"):
                 op["abort"]["at"] *= 4
     plan: dict[str, Any] = {"property": PROP, "seed": seed, "sub_batch": sub, "corpus": corpus,
                             "clients": clients, "schedule": schedule, "knobs": knobs}
